@@ -404,4 +404,274 @@ def Impl.base : Impl → Nat
   | .orig k => k
   | .wrap _ _ inner => inner.base
 
+/-! ## Round 3: the installed table entry by entry, the entry as the dataclass is, exit faults
+
+Everything below is additional; nothing above is changed. -/
+
+/-- how `wrap_ir_classes` installs a slot: plain attribute assignment of a method, of `__init__`,
+    or a new `property(fget, wrapper)` -/
+inductive Install where
+  | method | ctor | propSetter
+  deriving DecidableEq, Repr
+
+def Install.str : Install → String
+  | .method => "method" | .ctor => "constructor" | .propSetter => "property-setter"
+
+/-- One piece of a `details` string.  Every piece evaluates to a `String` (a `repr` / `str` / `len`
+    of something), never to the object itself. -/
+inductive Piece where
+  | lit (s : String)
+  /-- `repr(self)` -/
+  | reprSelf
+  /-- `self.__class__.__name__` -/
+  | selfClass
+  /-- `repr(getattr(self, a))` -/
+  | reprSelfAttr (a : String)
+  /-- `str(getattr(self, a))` -/
+  | strSelfAttr (a : String)
+  /-- `len(getattr(self, a))` printed -/
+  | lenSelfAttr (a : String)
+  /-- `repr(arg_i)`; when the argument is not passed, the printed default -/
+  | reprArg (i : Nat) (dflt : String)
+  /-- `str(arg_i)` (plain `{x}` in an f-string); when not passed, the printed default -/
+  | strArg (i : Nat) (dflt : String)
+  /-- `repr(arg_i.name if isinstance(arg_i, Graph) else arg_i)` (_wrappers.py 268-270) -/
+  | reprNameIfGraph (i : Nat)
+  deriving DecidableEq, Repr
+
+/-- the `details` expression of a wrapper: `None`, or a concatenation of pieces -/
+inductive DSpec where
+  | none
+  | fmt (ps : List Piece)
+  deriving DecidableEq, Repr
+
+/-- What a `details` expression can look at, already as strings / numbers: the `repr`s are taken by
+    Python at the moment of the call; the model only sees their text. -/
+structure DEnv where
+  reprSelf : String := ""
+  className : String := ""
+  attrRepr : String → String := fun _ => ""
+  attrStr : String → String := fun _ => ""
+  attrLen : String → Nat := fun _ => 0
+  /-- positional arguments after `self` that were passed: their `repr` -/
+  argRepr : Nat → Option String := fun _ => none
+  argStr : Nat → Option String := fun _ => none
+  argIsGraph : Nat → Bool := fun _ => false
+  /-- `repr(arg_i.name)` -/
+  argNameRepr : Nat → String := fun _ => ""
+
+def Piece.eval (e : DEnv) : Piece → String
+  | .lit s => s
+  | .reprSelf => e.reprSelf
+  | .selfClass => e.className
+  | .reprSelfAttr a => e.attrRepr a
+  | .strSelfAttr a => e.attrStr a
+  | .lenSelfAttr a => toString (e.attrLen a)
+  | .reprArg i d => (e.argRepr i).getD d
+  | .strArg i d => (e.argStr i).getD d
+  | .reprNameIfGraph i => if e.argIsGraph i then e.argNameRepr i else (e.argRepr i).getD ""
+
+/-- the value of the `details=` argument of `journal.record`: `None` or a `str` -/
+def DSpec.eval (e : DEnv) : DSpec → Option String
+  | .none => Option.none
+  | .fmt ps => some (String.join (ps.map (Piece.eval e)))
+
+structure SlotMeta where
+  /-- class whose attribute is replaced (module `_core` or `_graph_containers`) -/
+  cls : String
+  /-- the attribute of that class -/
+  attr : String
+  install : Install
+  /-- the wrapper's `details` expression (for setter wrappers: the f-string of `_setter_wrapper`) -/
+  details : DSpec
+  deriving Repr
+
+def setterDetails (prop : String) : DSpec := .fmt [.reprSelfAttr prop, .lit " -> ", .reprArg 0 ""]
+def ioDetails (rest : List Piece) : DSpec := .fmt ([.lit "[", .selfClass, .lit "]"] ++ rest)
+def kvDetails : DSpec := .fmt [.lit "key=", .reprArg 0 "", .lit ", value=", .reprArg 1 ""]
+def insertDetails : DSpec := .fmt [.lit "node=", .reprArg 0 "", .lit ", new_nodes=", .reprArg 1 ""]
+
+/-- what `wrap_ir_classes` installs where, and with which `details` expression, slot by slot in the
+    order of `slots` (_wrappers.py 207-464); compared entry by entry with the real closures and the
+    source text on every run (`journal.meta`, `journal.probe`). -/
+def slotMeta : List SlotMeta := [
+  ⟨"TensorBase", "__init__", .ctor, .none⟩,
+  ⟨"Node", "__init__", .ctor, .fmt [.reprSelf]⟩,
+  ⟨"Node", "name", .propSetter, setterDetails "_name"⟩,
+  ⟨"Node", "domain", .propSetter, setterDetails "_domain"⟩,
+  ⟨"Node", "version", .propSetter, setterDetails "_version"⟩,
+  ⟨"Node", "op_type", .propSetter, setterDetails "_op_type"⟩,
+  ⟨"Node", "overload", .propSetter, setterDetails "_overload"⟩,
+  ⟨"Node", "resize_inputs", .method, .fmt [.lenSelfAttr "_inputs", .lit " -> ", .strArg 0 ""]⟩,
+  ⟨"Node", "prepend", .method, .fmt [.reprArg 0 ""]⟩,
+  ⟨"Node", "append", .method, .fmt [.reprArg 0 ""]⟩,
+  ⟨"Node", "resize_outputs", .method, .fmt [.lenSelfAttr "_outputs", .lit " -> ", .strArg 0 ""]⟩,
+  ⟨"Node", "graph", .propSetter, .fmt [.reprNameIfGraph 0]⟩,
+  ⟨"Value", "__init__", .ctor, .fmt [.reprSelf]⟩,
+  ⟨"Value", "name", .propSetter, setterDetails "_name"⟩,
+  ⟨"Value", "type", .propSetter, setterDetails "_type"⟩,
+  ⟨"Value", "shape", .propSetter, setterDetails "_shape"⟩,
+  ⟨"Value", "const_value", .propSetter, setterDetails "_const_value"⟩,
+  ⟨"Value", "replace_all_uses_with", .method,
+    .fmt [.lit "replacement=", .reprArg 0 "", .lit ", replace_graph_outputs=", .strArg 1 "False"]⟩,
+  ⟨"Value", "merge_shapes", .method,
+    .fmt [.lit "original=", .reprSelfAttr "_shape", .lit ", other=", .reprArg 0 ""]⟩,
+  ⟨"Graph", "__init__", .ctor, .fmt [.strSelfAttr "name"]⟩,
+  ⟨"Graph", "register_initializer", .method, .fmt [.reprArg 0 ""]⟩,
+  ⟨"Graph", "append", .method, .fmt [.reprArg 0 ""]⟩,
+  ⟨"Graph", "extend", .method, .fmt [.reprArg 0 ""]⟩,
+  ⟨"Graph", "remove", .method, .fmt [.lit "nodes=", .reprArg 0 "", .lit ", safe=", .strArg 1 "False"]⟩,
+  ⟨"Graph", "insert_after", .method, insertDetails⟩,
+  ⟨"Graph", "insert_before", .method, insertDetails⟩,
+  ⟨"Graph", "sort", .method, .none⟩,
+  ⟨"Model", "__init__", .ctor, .fmt [.reprSelf]⟩,
+  ⟨"Function", "__init__", .ctor, .fmt [.reprSelf]⟩,
+  ⟨"Function", "name", .propSetter, setterDetails "_name"⟩,
+  ⟨"Function", "domain", .propSetter, setterDetails "_domain"⟩,
+  ⟨"Function", "overload", .propSetter, setterDetails "_overload"⟩,
+  ⟨"Attr", "__init__", .ctor, .fmt [.reprSelf]⟩,
+  ⟨"_GraphIO", "append", .method, ioDetails [.lit " ", .reprArg 0 ""]⟩,
+  ⟨"_GraphIO", "extend", .method, ioDetails [.lit " ", .reprArg 0 ""]⟩,
+  ⟨"_GraphIO", "insert", .method, ioDetails [.lit " ", .reprArg 1 ""]⟩,
+  ⟨"_GraphIO", "pop", .method, ioDetails [.lit " index=", .strArg 0 "-1"]⟩,
+  ⟨"_GraphIO", "remove", .method, ioDetails [.lit " ", .reprArg 0 ""]⟩,
+  ⟨"_GraphIO", "clear", .method, ioDetails []⟩,
+  ⟨"_GraphIO", "__setitem__", .method, ioDetails [.lit " index=", .strArg 0 "", .lit ", item=", .reprArg 1 ""]⟩,
+  ⟨"GraphInitializers", "__setitem__", .method, kvDetails⟩,
+  ⟨"GraphInitializers", "__delitem__", .method, .fmt [.lit "key=", .reprArg 0 ""]⟩,
+  ⟨"Attributes", "__setitem__", .method, kvDetails⟩
+]
+
+def metaOf (k : Nat) : SlotMeta := slotMeta.getD k ⟨"", "", .method, .none⟩
+
+/-- the key under which `get_original_methods` stores the slot -/
+def SlotMeta.key (m : SlotMeta) : String :=
+  m.cls ++ "." ++ m.attr ++ (if m.install = .propSetter then ".fset" else "")
+
+/-- the `details` of slot `k` evaluated on an environment of `repr`s: `None` or a string -/
+def detailsOf (k : Nat) (e : DEnv) : Option String := (metaOf k).details.eval e
+
+/-! ### order of effects inside a wrapper, *derived from `runImpl`* (not a second table)
+
+A probe configuration: the IR state is a log; the body of the original appends `1`, the `details`
+expression appends `2`.  Running one wrapper of slot `k` through `runImpl` and reading the log tells
+whether `details` is evaluated before or after the original; running it with a raising original and
+counting the entries tells whether `record` comes after the original. -/
+
+def probeCfg (bodyOk : Bool) : Cfg (List Nat) :=
+  { impl := fun _ _ _ => .get fun s => .put (s ++ [1]) (.done (if bodyOk then .ret (.int 7) else .raise 9)),
+    owner := fun o => o + 1000,
+    details := fun _ _ _ s => some (s ++ [2]) }
+
+def probeRun (bodyOk : Bool) (k : Nat) : World (List Nat) × Outcome :=
+  dispatch (probeCfg bodyOk) 2 k 5 .none (enterRaw 0 (initialWorld []))
+
+/-- `details` is evaluated before the original runs -/
+def detailsBefore (k : Nat) : Bool := (probeRun true k).1.ir = [2, 1]
+/-- the entry is written after the original returned (so a raising original leaves no entry) -/
+def recordAfter (k : Nat) : Bool :=
+  ((probeRun false k).1.journals 0).entries.length = 0 ∧ ((probeRun true k).1.journals 0).entries.length = 1
+/-- the wrapper hands the original's return value back -/
+def returnsResult (k : Nat) : Bool := (probeRun true k).2 = .ret (.int 7)
+/-- the object the entry is about is `self` (false: the owner read from `target_attr`) -/
+def recordsSelf (k : Nat) : Bool :=
+  ((probeRun true k).1.journals 0).entries.map (·.objectId) = [5]
+
+/-! ### a journal entry as the dataclass is (_journaling.py 26-50) -/
+
+/-- `traceback.FrameSummary` as `extract_stack` builds it: strings and a line number; `locals` is
+    not captured -/
+structure Frame where
+  filename : String
+  lineno : Nat
+  name : String
+  line : String
+  deriving DecidableEq, Repr
+
+/-- a Python value that can sit in a field of `JournalEntry`.  `inst o` is a strong reference to an
+    instance; `weak o` a `weakref.ref`; `cls c` a class object (no instance). -/
+inductive FVal where
+  | float (bits : Nat)
+  | str (s : String)
+  | optStr (s : Option String)
+  | cls (name : String)
+  | int (n : Nat)
+  | weak (o : Option Obj)
+  | frames (fs : List Frame)
+  | inst (o : Obj)
+  deriving DecidableEq, Repr
+
+/-- instances kept alive by a field value -/
+def FVal.strong : FVal → List Obj
+  | .inst o => [o]
+  | _ => []
+
+/-- Python type of a field value, as `type(x).__name__` prints it -/
+def FVal.tyName : FVal → String
+  | .float _ => "float"
+  | .str _ => "str"
+  | .optStr none => "NoneType"
+  | .optStr (some _) => "str"
+  | .cls _ => "type"
+  | .int _ => "int"
+  | .weak none => "NoneType"
+  | .weak (some _) => "ReferenceType"
+  | .frames _ => "list"
+  | .inst _ => "instance"
+
+/-- the eight fields of the frozen dataclass `JournalEntry`, in declaration order -/
+structure EntryFull where
+  timestamp : FVal
+  operation : FVal
+  class_ : FVal
+  class_name : FVal
+  ref : FVal
+  object_id : FVal
+  stack_trace : FVal
+  details : FVal
+  deriving DecidableEq, Repr
+
+def EntryFull.fields (e : EntryFull) : List (String × FVal) :=
+  [("timestamp", e.timestamp), ("operation", e.operation), ("class_", e.class_),
+   ("class_name", e.class_name), ("ref", e.ref), ("object_id", e.object_id),
+   ("stack_trace", e.stack_trace), ("details", e.details)]
+
+/-- `Journal.record(obj, operation, details)` (_journaling.py 182-193): what is stored.  `obj = none`
+    is `record(None, ...)`.  `clock` is `time.time()`, `stack` is `_get_stack_trace()`. -/
+def recordFull (operation : String) (obj : Option Obj) (className : String) (clock : Nat)
+    (stack : List Frame) (details : Option String) : EntryFull :=
+  { timestamp := .float clock, operation := .str operation, class_ := .cls className,
+    class_name := .str className, ref := .weak obj, object_id := .int (obj.getD 0),
+    stack_trace := .frames stack, details := .optStr details }
+
+/-- the entry a wrapper of slot `k` writes for target `t` -/
+def recordSlot (k : Nat) (t : Obj) (className : String) (clock : Nat) (stack : List Frame)
+    (e : DEnv) : EntryFull :=
+  recordFull (opOf k) (some t) className clock stack (detailsOf k e)
+
+/-- the part of a full entry that `Entry` keeps -/
+def EntryFull.core (k : Nat) (e : EntryFull) : Option Entry :=
+  match e.operation, e.ref, e.object_id with
+  | .str op, .weak (some o), .int n => some { slot := k, operation := op, ref := .weak o, objectId := n }
+  | _, _, _ => none
+
+/-! ### `__exit__` interrupted inside `restore_ir_classes` -/
+
+/-- `Journal.__exit__` when the `n`-th step of `restore_ir_classes` raises (_wrappers.py 469-578 is a
+    straight line of 43 assignments in the order of the table; _journaling.py 171-175 resets
+    `_current_journal` and `_active` only after it): slots before `n` are restored, the others keep
+    what is installed, the current journal and the active flag stay as they are.  The exception
+    propagates (not represented in the world). -/
+def exitFail {σ : Type} (j n : Nat) (w : World σ) : World σ :=
+  match (w.journals j).captured with
+  | none => w
+  | some t => { w with table := fun k => if k < n then t k else w.table k }
+
+/-- flat control events: raw `__enter__` / `__exit__` calls in time order (a generator that holds
+    a `with journal:` open is resumed and closed at arbitrary moments) -/
+def runCtl {σ : Type} : List (Nat × Bool) → World σ → World σ
+  | [], w => w
+  | (j, true) :: rest, w => runCtl rest ((enter j w).getD w)
+  | (j, false) :: rest, w => runCtl rest (exit j w)
+
 end IrVerif.Journal
